@@ -211,6 +211,7 @@ fn main() {
     match prop.as_str() {
         "C06" => c06::run(&prop, &opts, &mut out),
         "C07" | "C08" => c07::run(&prop, &opts, &mut out),
+        "exp-alpha-frames" => c07::alpha_frames("C08", &opts, &mut out, &mut rng::Rng::new(opts.seed)),
         "C11" => c11::run(&opts, &mut out),
         "C09" => c09::run(&opts, &mut out),
         "C10" => c10::run(&opts, &mut out),
